@@ -139,6 +139,16 @@ func c18Selects(thorough bool) []string {
 			}
 		}
 	}
+	// a bare operand of every kind where a condition is expected: WHERE, ON, and the select list
+	for _, o := range operands {
+		for _, f := range froms {
+			out = append(out, fmt.Sprintf("SELECT * FROM %s WHERE %s", f, o))
+		}
+		for _, k := range []string{"JOIN", "LEFT JOIN", "RIGHT JOIN"} {
+			out = append(out, fmt.Sprintf("SELECT * FROM t %s u ON %s", k, o), fmt.Sprintf("SELECT * FROM t %s e ON %s", k, o))
+		}
+		out = append(out, fmt.Sprintf("SELECT count(*) FROM t WHERE %s", o), fmt.Sprintf("SELECT a FROM t WHERE %s ORDER BY a LIMIT 1", o), fmt.Sprintf("SELECT a, count(*) FROM t WHERE %s GROUP BY a", o))
+	}
 	// AND / OR with non-boolean and mixed operands
 	for _, l := range []string{"a = 1", "c = 'x'", "a", "1", "'s'", "d", "true", "nosuch = 1", "a < c"} {
 		for _, r := range []string{"b = 10", "d = true", "c", "0", "false", "a > 'x'"} {
@@ -205,6 +215,7 @@ func c18Mutations() []string {
 				out = append(out, fmt.Sprintf("INSERT INTO %s VALUES (%s, %s)", tbl, v1, v2))
 				out = append(out, fmt.Sprintf("INSERT INTO %s (a, c) VALUES (%s, %s)", tbl, v1, v2))
 			}
+			out = append(out, fmt.Sprintf("UPDATE %s SET a = 1 WHERE %s", tbl, v1), fmt.Sprintf("DELETE FROM %s WHERE %s", tbl, v1))
 			out = append(out, fmt.Sprintf("INSERT INTO %s VALUES (1, 10, %s, true), (%s, 1, 'z', false)", tbl, v1, v1))
 			out = append(out, fmt.Sprintf("INSERT INTO %s (nosuch) VALUES (%s)", tbl, v1))
 			out = append(out, fmt.Sprintf("INSERT INTO %s (a, a) VALUES (%s, %s)", tbl, v1, v1))
